@@ -11,6 +11,7 @@ import (
 	"bytes"
 	"fmt"
 	"math/rand"
+	"os"
 	"strconv"
 	"strings"
 	"time"
@@ -57,13 +58,54 @@ func runC06WireCase(run *ev.Run, cs c06WireCase) {
 		targets = append(targets, t)
 	}
 	idx := 0
-	tr := func(t *vegeta.Target) error {
+	tr := vegeta.Targeter(func(t *vegeta.Target) error {
 		if idx >= len(targets) {
 			return vegeta.ErrNoTargets
 		}
 		*t = targets[idx]
 		idx++
 		return nil
+	})
+	// Every other case draws its targets the way `attack -lazy` does: through vegeta's own stream
+	// targeters, which fill in the Target they are handed field by field instead of replacing it.
+	switch uint64(cs.Seed) % 4 {
+	case 1:
+		var buf bytes.Buffer
+		enc := vegeta.NewJSONTargetEncoder(&buf)
+		for i := range targets {
+			if err := enc.Encode(&targets[i]); err != nil {
+				run.Inconclusive("cannot encode the targets of a wire case: " + err.Error())
+				return
+			}
+		}
+		tr = vegeta.NewJSONTargeter(&buf, nil, nil)
+	case 3:
+		var sb strings.Builder
+		ok := true
+		for i := range targets {
+			t := &targets[i]
+			fmt.Fprintf(&sb, "%s %s\n", t.Method, t.URL)
+			for k, vs := range t.Header {
+				for _, v := range vs {
+					fmt.Fprintf(&sb, "%s: %s\n", k, v)
+				}
+			}
+			if len(t.Body) > 0 {
+				f, err := os.CreateTemp("", "verif-c06-body-*")
+				if err != nil {
+					ok = false
+					break
+				}
+				f.Write(t.Body)
+				f.Close()
+				defer os.Remove(f.Name())
+				fmt.Fprintf(&sb, "@%s\n", f.Name())
+			}
+			sb.WriteString("\n")
+		}
+		if ok {
+			tr = vegeta.NewHTTPTargeter(strings.NewReader(sb.String()), nil, nil)
+		}
 	}
 	p := &recPacer{base: time.Now()}
 	p.decide = func(i int, _ time.Duration, _ uint64) (time.Duration, bool) { return 0, i >= cs.Hits }
